@@ -270,6 +270,9 @@ func c07(c *Ctx) {
 						okRet = true
 					}
 				}
+				if resolveLocal(retResult(ret, 0)) == resolveLocal(idx) {
+					okRet = true
+				}
 				if ph, ok := retResult(ret, 0).(*ssa.Phi); ok {
 					for _, e := range ph.Edges {
 						if e == idx {
